@@ -22,7 +22,7 @@ MC = """CONSTANTS SlabSize = 2
  Defect_NoResetOnDrain = %s
 INIT Init
 NEXT Next
-INVARIANTS SlotInRange NoDangling ReleasedAtOutermostDrain CleanStart CleanAfterFree CounterAgrees
+INVARIANTS SlotInRange NoDangling ReleasedAtOutermostDrain CleanStart CleanAfterFree CounterAgrees IndInv
 VIEW View
 CHECK_DEADLOCK FALSE
 """
@@ -132,6 +132,55 @@ def validate(chk, exe, scripts, dpool):
     return problems, trace
 
 
+APA_STEPS = [("Init => IndInv", ["--init=Init", "--inv=IndInv", "--length=0"]),
+             ("IndInv /\\ NextAny => IndInv'", ["--init=IndInit", "--next=NextAny", "--inv=IndInv", "--length=1"]),
+             ("IndInv => Safety", ["--init=IndInit", "--inv=Safety", "--length=0"])]
+
+
+def apalache(wd, args, timeout=600):
+    import subprocess, time
+    t0 = time.time()
+    try:
+        r = subprocess.run(["apalache-mc", "check", "--cinit=ConstInit"] + args + ["--out-dir=" + os.path.join(wd, "out"), "TokenPoolInd.tla"], cwd=wd, stdout=subprocess.PIPE, stderr=subprocess.STDOUT, text=True, timeout=timeout)
+    except subprocess.TimeoutExpired:
+        raise FrameworkError("apalache-mc did not finish within %d s (%s)" % (timeout, " ".join(args)))
+    out = r.stdout
+    if "The outcome is: NoError" in out and r.returncode == 0: return "ok", out, time.time() - t0
+    if "The outcome is: Error" in out and r.returncode == 12: return "violated", out, time.time() - t0
+    raise FrameworkError("apalache-mc failed (%s): %s" % (" ".join(args), out[-1500:]))
+
+
+def induction(chk):
+    """unbounded half: TokenPool's own actions (spec/apalache/TokenPoolInd.tla EXTENDS TokenPool), SlabSize 1024, any allocation count per conversion; Apalache discharges
+    Init => IndInv, IndInv /\ Next => IndInv', IndInv => the six invariants.  Non-vacuity: with either defect flag of the model the inductive step must fail."""
+    import shutil, tempfile
+    wd = tempfile.mkdtemp(prefix="apa", dir=os.path.join(BUILD, "tlc") if os.path.isdir(os.path.join(BUILD, "tlc")) else None)
+    try:
+        for f in ("TokenPool.tla", os.path.join("apalache", "TokenPoolInd.tla")): shutil.copy(os.path.join(VERIF, "spec", f), wd)
+        steps = {}
+        for name, args in APA_STEPS:
+            st, out, dt = apalache(wd, args)
+            steps[name] = dict(result=st, wall_s=round(dt, 1))
+            if st != "ok":
+                cex = ""
+                for root, _, fs in os.walk(os.path.join(wd, "out")):
+                    for f in fs:
+                        if f == "violation1.tla": cex = open(os.path.join(root, f)).read()[:3000]
+                chk.report("model:induction:" + name.split(" ")[0], "the pool protocol model is not inductive any more (%s fails): the invariants of TokenPool are not established for histories of any length :: %s" % (name, cex[-1500:]), dict(step=name, counterexample=cex))
+                break
+        src = open(os.path.join(wd, "TokenPoolInd.tla")).read()
+        defects = {}
+        for flag in ("Defect_CountOnlyFirstInit", "Defect_NoResetOnDrain"):
+            open(os.path.join(wd, "TokenPoolInd.tla"), "w").write(src.replace(flag + " = FALSE", flag + " = TRUE"))
+            st, out, dt = apalache(wd, APA_STEPS[1][1])
+            defects[flag] = st
+            if st != "violated": raise FrameworkError("TokenPoolInd: the inductive step holds with %s (vacuous)" % flag)
+        chk.cov["induction"] = dict(tool="apalache-mc 0.58", module="TokenPoolInd EXTENDS TokenPool", SlabSize=1024, MaxNeed=1000000, engines=3, steps=steps, defect_flags_refuted=defects,
+                                    claim="the six invariants hold after histories of any length (model level)")
+    finally:
+        shutil.rmtree(wd, ignore_errors=True)
+
+
 def run(tier, seed):
     chk = Check("C18", LEVEL, tier, seed)
     chk.assumptions += ["well-bracketed = the caller frees its engines before the drain that closes its outermost bracket and calls free only at depth 0",
@@ -144,6 +193,7 @@ def run(tier, seed):
     for k in ("PInit", "PDrain", "Convert", "ParseKeep"):
         if mc.coverage.get(k, (0, 0))[0] == 0: raise FrameworkError("TokenPool: action %s never taken" % k)
     chk.cov["states"] = mc.distinct; chk.cov["transitions"] = mc.generated
+    induction(chk)
     chk.cov["mc"] = dict(module="TokenPool", SlabSize=2, MaxHist=n, distinct=mc.distinct, generated=mc.generated, depth=mc.depth,
                          coverage={k: list(v) for k, v in mc.coverage.items()}, defect_CountOnlyFirstInit=d1.violated, defect_NoResetOnDrain=d2.violated)
     exe = build.build_harness("asan")
